@@ -1,16 +1,17 @@
 """C19: check configuration (PROPS_ENTRY, consumed by ./check and gen_manifest.py) and the list of lemmas that make up
 the property file (SPEC_ENTRY, consumed by tools/mkprops.py)."""
-PROPS_ENTRY = {'models': ['Model/Queue.v', 'Model/Owning.v', 'Model/Sound.v', 'Model/Vsock.v'],
+PROPS_ENTRY = {'models': ['Model/Queue.v', 'Model/Owning.v', 'Model/Input.v', 'Model/Sound.v', 'Model/Vsock.v'],
  'design_ref': 'DESIGN.md 3 C19',
- 'assumptions': ['the check also runs the sound notification queue (scenario c20snd-notifications-*, monitor 2056) and read_header_and_body of the socket receive path (kind 1711, monitor 1952)',
+ 'assumptions': ['VirtIOInput (Model/Input.v): the bytes a buffer holds after the copy-back at unshare are an argument of the model step (read by the harness from the device-side buffer before the call); that the platform copies exactly these bytes back is C04 / the instrumented platform. The used ring is read twice by pop_pending_event (peek_used, then pop_used): both views are arguments, the harness device never changes them in between, so the refusal branch of pop_used is theorem-only',
+                 'VirtIOInput hands out the whole 8-byte struct whatever length the device recorded (input_pop_any_len); a device recording fewer than 8 bytes is outside the device specification, the tail of the event is then what the platform left in the buffer (Example input_len_ignored) - recorded as an observation, not as a violation',
+                 'the check also runs the sound notification queue (scenario c20snd-notifications-*, monitor 2056) and read_header_and_body of the socket receive path (kind 1711, monitor 1952)',
                  'the handler passed to poll returns normally (a panicking handler loses the buffer, as documented in the code)',
-                 'bytes are not part of the Coq model: delivery of exactly the device-written bytes is checked on the implementation by the monitors (kinds '
+                 'OwningQueue: bytes are not part of the Coq model: delivery of exactly the device-written bytes is checked on the implementation by the monitors (kinds '
                  '1950/1951) and follows from C04 (copy-back at unshare)'],
- 'trusted_extra': ['VirtIOInput::pop_pending_event, VirtIOSound::latest_notification and the vsock rx queue are tied by monitors / their own properties; the '
-                   'OwningQueue model is tied line by line']}
+ 'trusted_extra': ['VirtIOSound::latest_notification and the vsock rx queue are tied by monitors / their own properties; the OwningQueue model (kinds 1900/1901) and the VirtIOInput model (kinds 1960 new, 1961 pop_pending_event, 1962 query_config_select) are tied line by line; monitors 1970 / 1971 evaluate the clauses of input_pop_stocked / input_new_stocked on device memory, the platform log and the transport log (descriptor named by the new ring entry = live share of event_buf[used id], available index moved by one, notification only of queue 0 and whenever VirtIO 2.7.10 requires one)']}
 
 SPEC_ENTRY = {'title': 'Event queues deliver each device event once, in order, and stay fully stocked',
- 'imports': ['Model.Queue', 'Proofs.QueueInv', 'Proofs.QueueReach', 'Proofs.QueueProps', 'Model.Owning', 'Proofs.OwningProofs'],
+ 'imports': ['Model.Queue', 'Proofs.QueueInv', 'Proofs.QueueReach', 'Proofs.QueueProps', 'Model.Owning', 'Proofs.OwningProofs', 'Model.Input', 'Proofs.InputProofs'],
  'theorems': [('C19_new_stocked',
                'Proofs/OwningProofs.v',
                'owning_new_stocked',
@@ -28,4 +29,29 @@ SPEC_ENTRY = {'title': 'Event queues deliver each device event once, in order, a
                'lifo_token',
                'after a successful pop of chain c the immediately following one-buffer add returns the same token (also with indirect enabled: a one-buffer '
                'chain is direct)'),
-              ('C19_pop', 'Proofs/QueueProps.v', 'pop_refines', None)]}
+              ('C19_pop', 'Proofs/QueueProps.v', 'pop_refines', None),
+              # ---- VirtIOInput: hand-written posting / re-posting of its 32 event buffers (Model/Input.v, Proofs/InputProofs.v)
+              ('C19_input_new_stocked', 'Proofs/InputProofs.v', 'input_new_stocked',
+               'VirtIOInput::new, event-queue part, for every start of the free-running indices, every share answer, both suppression modes: no `?` and no assert fires, all 32 buffers are posted as the chains in_posted, finish_init precedes the notification, which is sent iff should_notify'),
+              ('C19_input_token_i_is_buffer_i', 'Proofs/InputProofs.v', 'in_posted_nth',
+               'what new leaves posted: the j-th chain has head j, occupies descriptor j and holds exactly event_buf[j] (8 bytes, device-writable) at the address the platform answered for it'),
+              ('C19_input_pop_stocked', 'Proofs/InputProofs.v', 'input_pop_stocked',
+               'pop_pending_event under Reach + stocked for EVERY device behaviour (both reads of used index / id, recorded length, buffer bytes, share answer, suppression words): nothing pending -> None, nothing changes; id >= 32 -> clean panic, nothing touched; pop_used refusal -> None, nothing changes; otherwise the event returned is the 8 bytes event_buf[token] holds after the copy-back, the buffer is unshared with the arguments of its share and re-posted under the SAME token (the assert never fires), the notification is sent iff should_notify, the queue is fully stocked again'),
+              ('C19_input_repost_every_len', 'Proofs/InputProofs.v', 'input_repost_every_len',
+               'the re-post happens for EVERY used length the device reports (0, 4, 7, 8, 9, 2^32-1, ...): event handed out, same token posted again, queue stocked'),
+              ('C19_input_pop_any_len', 'Proofs/InputProofs.v', 'input_pop_any_len',
+               'for every driver state the recorded length changes nothing at all: same result, same successor state, same effects'),
+              ('C19_input_history', 'Proofs/InputProofs.v', 'input_history',
+               'any number of events against an abstract FIFO of device completions (any tokens below 32 in any order and repetition, any burst size, polls more or less often than events, any start of the 16-bit indices): every poll returns the next unconsumed completion or None when there is none, and the queue is stocked after each'),
+              ('C19_input_exactly_once_in_order', 'Proofs/InputProofs.v', 'input_exactly_once_in_order',
+               'the events handed to the caller over a whole history are the completions k, k+1, ... of the device, in this order, none twice, none skipped; no poll ends in an error or a panic'),
+              ('C19_input_event_is_the_buffer_bytes', 'Proofs/InputProofs.v', 'in_ev_bytes_roundtrip',
+               'the event IS the 8 bytes: reading its three fields back little-endian gives the buffer contents'),
+              ('C19_input_event_first8_only', 'Proofs/InputProofs.v', 'in_ev_first8', 'nothing beyond the 8 bytes of the buffer can reach the caller'),
+              ('C19_input_event_fields_bounded', 'Proofs/InputProofs.v', 'in_ev_fields_bounded', None),
+              ('C19_input_len_ignored', 'Proofs/InputProofs.v', 'input_len_ignored',
+               'observation: with a recorded length of 4 the tail of the event is whatever the copy-back left in the buffer'),
+              ('C19_input_history_nonvacuous', 'Proofs/InputProofs.v', 'input_history_nonvacuous',
+               'non-vacuity of the history theorems: indices starting at 65535, token 7 completed twice with token 3 in between, a burst of two, five polls'),
+              ('C19_input_pop_nonvacuous', 'Proofs/InputProofs.v', 'input_pop_nonvacuous',
+               'non-vacuity: new then one completion under token 7, across the wrap of the indices, with indirect and event_idx negotiated')]}
